@@ -435,7 +435,7 @@ func main() {
 	r.Rule = "every query of the bounded LogQL grammar (1-2 matchers over = != =~ !~; pipelines of <=2 (thorough <=3) stages over line filters |= != |~ !~, " +
 		"label-filter trees of <=3 leaves with and/or/parentheses over string and numeric comparisons, json with parameters, regexp with named groups, drop) " +
 		"is rendered by the real parser+planner and executed by chsim on the universal database under 2 windows x {no limit, limit 1000} x {backward, forward} x {single-node, cluster rendering} " +
-		"(quick tier: the parameter variants only for queries of <=1 stage), " +
+		"(quick tier: the parameter variants only for queries of <=1 stage whose label filter, if any, is a single leaf), " +
 		"and a set of pipeline shapes on every sub-database of <=3 rows of a 6-row pool under limit {1,2,3} x direction; a case is distinct by its query text; " +
 		"non-trivial = the oracle's match set is non-empty or differs between two cases"
 	r.Assumptions = []string{
@@ -523,14 +523,14 @@ func main() {
 					}
 					// quick tier: window/limit/direction variants only for queries of at most one stage (the clauses
 					// they exercise are attached independently of the pipeline; the small databases cover limits per shape)
-					if !cfg.thorough && len(qu.Stages) > 1 && !(wi == 0 && lim == 0 && !fwd) {
+					if !cfg.thorough && !simpleQuery(qu) && !(wi == 0 && lim == 0 && !fwd) {
 						continue
 					}
 					cases = append(cases, caseSpec{Query: qu, Text: text, DB: uni.Name, Params: Params{Start: w[0], End: w[1], Limit: lim, Forward: fwd}})
 				}
 			}
 		}
-		if cfg.thorough || len(qu.Stages) <= 1 {
+		if cfg.thorough || simpleQuery(qu) {
 			// cluster mode: inlined WITHs, GLOBAL joins, distributed table names
 			cases = append(cases, caseSpec{Query: qu, Text: text, DB: uni.Name, Params: Params{Start: start, End: end}, Cluster: true})
 		}
@@ -745,4 +745,17 @@ func observations(start, end int64) map[string]string {
 	out[`extracted label with the name of a stored label: {a="x"} | json a="k" on {"k":"1"} (Loki: a_extracted)`] = find(run(`{a="x"} | json a="k"`), `{"k":"1"}`)
 	out[`regex matcher anchoring: {a=~"x"} on streams a="x" and a="xx" (Loki anchors: only a="x")`] = fmt.Sprintf("%d lines returned (3 = unanchored search, 2 = anchored)", len(run(`{a=~"x"}`)))
 	return out
+}
+
+
+// simpleQuery: at most one stage, and that stage is not a multi-leaf label-filter tree (quick tier: only these get
+// the window / limit / direction / cluster variants).
+func simpleQuery(q *Query) bool {
+	if len(q.Stages) > 1 {
+		return false
+	}
+	if len(q.Stages) == 1 && q.Stages[0].Kind == "label" && q.Stages[0].Tree.Leaf == nil {
+		return false
+	}
+	return true
 }
